@@ -8,9 +8,9 @@ Inductive case :=
 | Corr (id : N) (cfg : config) (obs : option (list rule * list rule))
 (* semantics: the REAL parsed rules of one family (nat table), evaluated at one hook on boundary
    packets derived from the configuration, against the specification *)
-| Sem (id : N) (cfg : config) (six : bool) (hook : chain) (obs : list rule) (pkts : list pkt).
+| Sem (id : N) (cfg : config) (tbl : table) (six : bool) (hook : chain) (obs : list rule) (pkts : list pkt).
 
-Definition case_id c := match c with Corr id _ _ => id | Sem id _ _ _ _ _ => id end.
+Definition case_id c := match c with Corr id _ _ => id | Sem id _ _ _ _ _ _ => id end.
 
 (* ---- structural equality of rules *)
 Definition cidr_eqb (a b : cidr) := (c_base a =? c_base b) && (c_hb a =? c_hb b).
@@ -50,28 +50,29 @@ Definition model_ok (c : case) : bool :=
   match c with
   | Corr _ cfg obs =>
     option_eqb (fun a b => list_eqb rule_eqb (fst a) (fst b) && list_eqb rule_eqb (snd a) (snd b)) (rules cfg) obs
-  | Sem _ _ _ _ _ _ => true
+  | Sem _ _ _ _ _ _ _ => true
   end.
 
 (* the specification at a hook (strict inbound reading of the property text) *)
-Definition spec_at (cfg : config) (six : bool) (hook : chain) (p : pkt) : verdict :=
-  match hook with
-  | OUTPUT => spec_out cfg (fam_of cfg six) p
-  | _ => spec_pre_strict cfg (fam_of cfg six) p
+Definition spec_at (cfg : config) (tbl : table) (six : bool) (hook : chain) (p : pkt) : verdict :=
+  match tbl, hook with
+  | Tnat, OUTPUT => spec_out cfg (fam_of cfg six) p
+  | Tnat, _ => spec_pre_strict cfg (fam_of cfg six) p
+  | _, _ => spec_mangle_pre cfg (fam_of cfg six) p
   end.
 
 (* packets on which the observed rules disagree with the specification (for diagnosis) *)
 Definition failing (c : case) : list pkt :=
   match c with
-  | Sem _ cfg six hook obs pkts =>
-    filter (fun p => negb (verdict_eqb (nat_eval obs hook p) (spec_at cfg six hook p))) pkts
+  | Sem _ cfg tbl six hook obs pkts =>
+    filter (fun p => negb (verdict_eqb (eval tbl obs hook p) (spec_at cfg tbl six hook p))) pkts
   | _ => []
   end.
 
 Definition prop_ok (c : case) : bool :=
   match c with
   | Corr _ _ _ => true
-  | Sem _ _ _ _ _ _ => is_nil (failing c)
+  | Sem _ _ _ _ _ _ _ => is_nil (failing c)
   end.
 
 Definition mismatches := check_all case_id model_ok prop_ok.
